@@ -518,6 +518,10 @@ func (g *vgen) value(c *sContainer, depth int) *gval {
 			if g.r.intn(3) == 0 {
 				nbits = g.r.intn(200)
 			}
+			if g.r.intn(48) == 0 {
+				// top of the 16-bit range: the byte count (n+7)/8 must not be computed in 16 bits
+				nbits = []int{65528, 65529, 65535, 65521}[g.r.intn(4)]
+			}
 			v.fs = append(v.fs, gf{kind: 'b', nbits: nbits, bytes: g.randBytes((nbits + 7) / 8)})
 		case "rest":
 			v.fs = append(v.fs, gf{kind: 'x', bytes: g.randBytes(g.length())})
